@@ -91,9 +91,9 @@ def validate_trace(ctx, trace, what, expect_reject=False):
     return r
 
 
-def pipeline(ctx, hist, status="passing", required="one", failstatus="critical"):
+def pipeline(ctx, hist, status="passing", required="one", failstatus="critical", naming="plain"):
     g = ctx.gotest(".", MAIN_FILES, "^TestVerifC01$", env={"VERIF_IN": hist, "VERIF_STATUS": status,
-                   "VERIF_CHECKS_REQUIRED": required, "VERIF_FAIL_STATUS": failstatus}, timeout=900)
+                   "VERIF_CHECKS_REQUIRED": required, "VERIF_FAIL_STATUS": failstatus, "VERIF_NAMING": naming}, timeout=900)
     if g.summary is None and "panic:" in g.out and "watchBackend" in g.out:
         ctx.violation({"sub": "pipeline", "crash": True}, "the update loop crashed the process:\n" + g.out[-3000:],
                       replay={"sub": "pipeline-crash", "case": None})
@@ -150,17 +150,18 @@ def run(ctx):
     alts = [("passing,warning", "all", "critical"), ("passing", "all", "warning"), ("passing,warning", "one", "critical")]
     cfgs = [("passing", "one", "critical")] + (alts if ctx.thorough else [alts[ctx.seed % len(alts)]])
     for k, (st, req, fs) in enumerate(cfgs):
-        if not one_pipeline(ctx, hist, st, req, fs, selftest=(k == 0)):
+        # every configuration after the first runs with dotted node names / service ids
+        if not one_pipeline(ctx, hist, st, req, fs, selftest=(k == 0), naming=("plain" if k == 0 else "dotted")):
             return
     ctx.cover(rule="registry histories: all of <=k changes (k=2 quick, 3 thorough; sampled above the cap) plus seeded random ones, each applied step by step (a seeded third of the health changes under snapshot/catalog skew); health rule: every multiset of <=3 (quick) / <=4 (thorough) checks x 28 configurations; non-trivial = multiset of >=2 checks routing at least one instance")
 
 
-def one_pipeline(ctx, hist, st, req, fs, selftest):
-    g = pipeline(ctx, hist, st, req, fs)
+def one_pipeline(ctx, hist, st, req, fs, selftest, naming="plain"):
+    g = pipeline(ctx, hist, st, req, fs, naming)
     if g is None:
         return False
     s = g.summary
-    ctx.log("configuration: accepted=%s checksRequired=%s failing-check-status=%s" % (st, req, fs))
+    ctx.log("configuration: accepted=%s checksRequired=%s failing-check-status=%s naming=%s" % (st, req, fs, naming))
     ctx.log("pipeline: %d histories, %d steps (%d compared, %d under snapshot/catalog skew), %d events, %d failed, %.0fs"
             % (s["histories"], s["steps"], s["compared"], s["skews"], s["events"], s["fails"], g.wall))
     ctx.cover("pipeline", traces_validated_against_impl=s["histories"], evaluations=s["compared"], samples=s.get("samples") or [])
